@@ -1,5 +1,6 @@
 import BddProofs.CacheTrace
 import BddProofs.HashTwin
+import BddProofs.Pairing
 /-! # C18 — the operation cache never returns a value stored under a different key
 
 Model: `P.Cache` (`BddModel/Cache.lean`), any key type with any `MyHash` (so forced collisions,
@@ -44,9 +45,19 @@ machine-checked — so `get` must (and does, `C18_never_another_key`) compare th
 theorem C18_hash_is_not_identity : ∃ k₁ k₂ : OpKey, MyHash.hash k₁ = MyHash.hash k₂ ∧ k₁ ≠ k₂ :=
   ⟨_, _, hash_not_injective⟩
 
+
+/-- … whereas on *pairs* of handles (the Constrain / Restrict keys) the hash does identify the key in every
+manager the constructors admit: Szudzik's pairing is injective on naturals (`szudzikNat_injective`) and
+nothing wraps for two words below `2^32 − 1`.  Collisions need the outer pairing of a third word -/
+theorem C18_pair_hash_is_identity {f g f' g' : Ref}
+    (hf : f.raw < 4294967295) (hg : g.raw < 4294967295) (hf' : f'.raw < 4294967295) (hg' : g'.raw < 4294967295)
+    (h : (MyHash.hash (f, g) : UInt64) = MyHash.hash (f', g')) : f = f' ∧ g = g' :=
+  pair_hash_injective hf hg hf' hg' h
+
 end P
 #print axioms P.C18_lookup_after_history
 #print axioms P.C18_never_another_key
 #print axioms P.C18_clear_forgets
 #print axioms P.C18_statistics
 #print axioms P.C18_hash_is_not_identity
+#print axioms P.C18_pair_hash_is_identity
